@@ -148,6 +148,12 @@ def instances(tier):
                         continue
                     add(spec('curve', (p,), (m,), rational=rational, dim=2 if rational else 3), [d])
     add(spec('curve', (2,), ((1,),), rational=True, lo=2, hi=5), [1])
+    add(spec('curve', (2,), ((1,),), rational=False, lo=-1, hi=1), [1])
+    add(spec('curve', (3,), ((1, 1),), rational=True, lo=-2, hi=2), [2])
+    sp0 = spec('surface', (2, 1), ((1,), (1,)), rational=False, doms=[(-1, 1), (-2, 3)])
+    for dens in ((1, 0), (0, 1), (1, 1)):
+        add(sp0, dens)
+    add(spec('volume', (1, 1, 2), ((), (1,), ()), rational=False, doms=[(-1, 1), (-1, 2), (-3, 1)]), (1, 1, 1), timeout=1800)
     add(spec('curve', (3,), ((),), rational=False, lo=2, hi=5), [2])
     surf = [((1, 2), ((1,), ())), ((2, 1), ((), (1,))), ((2, 2), ((1,), (2,)))]
     if not quick:
